@@ -118,7 +118,8 @@ def kruskal_edges(w):
 def tie_correction_matters(M):
     """the maximum spanning tree of |tau-a| is NOT a maximum spanning tree of |tau-b|."""
     A, B = np.abs(tau_a_matrix(M)), np.abs(tau_b_matrix(M))
-    return sorted(B[i, j] for i, j in kruskal_edges(A)) != sorted(B[i, j] for i, j in kruskal_edges(B))
+    wa, wb = sorted(B[i, j] for i, j in kruskal_edges(A)), sorted(B[i, j] for i, j in kruskal_edges(B))
+    return any(abs(a - b) > 1e-6 for a, b in zip(wa, wb))
 
 
 def tied_columns(rng, rs, Z):
@@ -887,7 +888,9 @@ def oracle(vine, vt, d, t, tau_ref, tau_first=None):
         if vt == 'regular' and k == 1 and okr and comps == 1:
             w = sorted(tau_abs[a, b] for a, b in ends)
             best = sorted(kruskal_max(tau_abs))
-            if w != best:
+            # all maximum spanning trees have the same sorted weights; 1e-10 absorbs the last-ulp asymmetry of
+            # scipy's kendalltau(x, y) vs kendalltau(y, x) between the reference and the model's own matrix
+            if len(w) != len(best) or any(abs(a - b) > 1e-10 for a, b in zip(w, best)):
                 out.append(('first-tree-not-maximum-spanning', {'weights': w, 'kruskal': best}))
         prev = tr
     return out
